@@ -686,12 +686,13 @@ int main(int argc, char** argv) {
 
   res.strings["rule"] =
       "a case is one judged run of the real stale-file-removal command = (history of expectedOutputs lists so far, roots); evaluations = judged runs "
-      "(second runs; third runs of the three-list histories in thorough); every (history, roots) is enumerated once, so every evaluation is a distinct case; "
+      "(second runs; third runs of the three-list histories); every (history, roots) is enumerated once, so every evaluation is a distinct case; "
       "distinct_nontrivial = judged runs in which at least one path was listed by the previous run and is not listed now (a deletion candidate exists). "
       "Space: path alphabet {/r/a, /r/ab, /r/a/b, /r/a/, /r//a, a, r/a, '', /r/../x, /o/x, /r, /x}, root alphabet {/r, /r/, /, /r/a, r} (+ none); "
       "'ordered list' = sequence of <=2 alphabet paths, order and repetition significant (157 lists); 'set' = duplicate-free list in one fixed order (79). "
       "quick: mem = ALL (previous, current) ordered lists (157 x 157) x <=1 root (6), plus ALL (previous set, current set) (79 x 79) x ALL sets of two distinct roots (10) - together every (previous, current, roots) triple of SETS with <=2 paths and <=2 roots; "
-      "fs (real tmpfs tree, snapshot before/after) = ALL (previous ordered list, current of <=1 path, <=1 root) = 157 x 13 x 6. "
+      "fs (real tmpfs tree, snapshot before/after) = ALL (previous ordered list, current of <=1 path, <=1 root) = 157 x 13 x 6; "
+      "plus mem ALL histories of THREE lists (first of <=1 path (13), second a set (79), third of <=1 path (13)) x <=1 root (6), judged at the third run. "
       "thorough: mem = ALL (previous, current, roots) ordered lists 157 x 157 x 31, plus ALL histories of THREE lists (first of <=1 path (13), second and third sets (79 x 79)) x <=1 root (6), "
       "judged at the third run (their second runs are part of the 157 x 157 x 31 block); "
       "fs = ALL (previous, current) ordered lists 157 x 157 x <=1 root (6), plus ALL (previous set, current set) 79 x 79 x ALL ordered root lists of exactly 2 (25)";
@@ -749,6 +750,8 @@ int main(int argc, char** argv) {
   //  4 mem  histories of three lists: first of <= 1 path, second and third from PU, <= 1 root   (thorough)
   //  5 fs   previous in PU, current in PU, exactly two roots                 (thorough)
   //  6 fs   previous in PO, current of exactly 2 paths, <= 1 root            (thorough)
+  //  7 mem  histories of three lists: first of <= 1 path, second from PU, third of <= 1 path, <= 1 root
+  //         (quick only; a subset of 4)
   struct Item { int kind; size_t l1, roots; };
   std::vector<Item> items;
   std::vector<List> R2only(RO.begin() + 1 + NR, RO.end());
@@ -766,6 +769,10 @@ int main(int argc, char** argv) {
     for (size_t r = 0; r < R1.size(); ++r) items.push_back({2, i, r});
   for (size_t i = 0; i < PO.size(); ++i)
     for (size_t r = 0; r < R1.size(); ++r) items.push_back({3, i, r});
+  if (!args.thorough()) {
+    for (size_t i = 0; i < P1.size(); ++i)
+      for (size_t r = 0; r < R1.size(); ++r) items.push_back({7, i, r});
+  }
   if (args.thorough()) {
     for (size_t i = 0; i < PU.size(); ++i)
       for (size_t r = 0; r < R2only.size(); ++r) items.push_back({5, i, r});
@@ -803,6 +810,7 @@ int main(int argc, char** argv) {
     case 4: { Walker w{env, J, false, false}; w.walk(P1[it.l1], R1[it.roots], PU, &PU); break; }
     case 5: { Walker w{env, J, true}; w.walk(PU[it.l1], R2only[it.roots], PU, nullptr); break; }
     case 6: { Walker w{env, J, true}; w.walk(PO[it.l1], R1[it.roots], P2only, nullptr); break; }
+    case 7: { Walker w{env, J, false, false}; w.walk(P1[it.l1], R1[it.roots], PU, &P1); break; }
     }
   }
   J.flush();
